@@ -53,9 +53,9 @@ def _events(P, a, b):
 
 def equivalence(sym, tier):
     r = Result()
-    END = 3 if tier == "quick" else 4
+    END = 3
     nsend = 1 if tier == "quick" else 2
-    nloc = 1 if tier == "quick" else 2
+    nloc = 1
     P = {
         "ts": [sym.int(f"ts{i}", 0, END * S) for i in range(nsend)],
         "tu": [sym.int(f"tu{i}", 0, END * S + 2) for i in range(nloc)],
